@@ -306,3 +306,5 @@ def run(ctx):
     _b.check_predicates(ctx, 'C15.RP', 'C15')
     from .. import boundaries as _b
     _b.check_counts(ctx, 'C15.RQ', 'C15')
+    from . import C06
+    C06.r3_notify(ctx, 'C15.R8')  # streams failed by a GOAWAY (Recv::handle_error / recv_go_away) wake every parked task: response, body, push and send waiters (= C06.R3)
